@@ -813,6 +813,10 @@ func ruleF7(c *Ctx) *RuleResult {
 			if !ok || call.Call.StaticCallee() != dl {
 				return
 			}
+			if len(call.Call.Args) < 3 {
+				r.undecided("F7: downloadPlaylist no longer takes the delta flag as its second parameter: form not known to the rule")
+				return
+			}
 			arg := call.Call.Args[2]
 			okArg := false
 			if bo, ok := arg.(*ssa.BinOp); ok && bo.Op == token.NEQ {
